@@ -6,9 +6,12 @@
     [victims] is the reclaimee map in the order Go happens to iterate it; every theorem
     quantifies over all such orders.  [reclaimable ... = Ok true] already implies that no
     parent walk ran out of fuel; C07_fuel_suffices says that this never happens on an
-    acyclic forest. *)
+    acyclic forest.
+    Theorems 6-9 are about whole sessions (Model/ReclaimSession.v): several reclaims are
+    committed one after the other, and every verdict has to be computed on the state the
+    earlier commits of the same session produced. *)
 From Coq Require Import List ZArith QArith Bool Permutation.
-From KaiV Require Import Model.Reclaim Model.ReclaimSpec Proofs.Reclaim.
+From KaiV Require Import Model.Reclaim Model.ReclaimSpec Model.ReclaimSession Proofs.Reclaim Proofs.ReclaimSession.
 Import ListNotations.
 Open Scope Q_scope.
 
@@ -136,3 +139,95 @@ Theorem C07_nonvacuous :
      no_sentinel (rem_before w_qs (firstn pre (flatten ex_victims)) q)).
 Proof. exact ex_accepted. Qed.
 Print Assumptions C07_nonvacuous.
+
+(** * Whole sessions: a list of reclaim commits, each judged on the state its predecessors left
+
+    [accepted_on_current m qs0 cs]: for every commit of [cs], in order, the gate
+    (CanReclaimResources) and the validator (Reclaimable) say yes ON THE CURRENT STATE, i.e. on
+    [qs0] updated by all earlier commits (victims' resources leave their queue and every
+    ancestor, the reclaimer's resources enter its queue and every ancestor).
+    [holding qs0 done id h0] is the declarative counterpart: what queue [id], holding [h0] at the
+    start of the session, holds after the commits [done], told from the history alone;
+    [take qs0 pre id h] then removes the victims [pre] of the commit under way. *)
+
+(** 6. The state on which the k-th verdict is computed is the cumulative truth: after any prefix
+    [cs] of the session every queue has the same identifier, parent, deserved quota, fair share
+    and allocatable share as at the start, and its allocation (non-preemptible allocation) is the
+    initial one adjusted by every earlier victim at or below it and every earlier reclaimer at or
+    below it. *)
+Theorem C07_session_state_is_cumulative :
+  forall cs qs0 id q0, lookup qs0 id = Some q0 ->
+  exists q, lookup (run qs0 cs) id = Some q /\
+    q_id q = q_id q0 /\ q_parent q = q_parent q0 /\
+    deserved_vec q = deserved_vec q0 /\ fair_vec q = fair_vec q0 /\
+    allocatable_vec q = allocatable_vec q0 /\
+    alloc_vec q = holding qs0 cs id (alloc_vec q0) /\
+    allocnp_vec q = holding_np qs0 cs id (allocnp_vec q0).
+Proof. exact session_state_is_cumulative. Qed.
+Print Assumptions C07_session_state_is_cumulative.
+
+(** 7. Clause 1 after every prefix of a session.  If every verdict is computed on the current
+    state, then for every commit [c] of the session (after any commits [done]) and every victim
+    of [c]: the victim's queue at the level where it diverges from the reclaimer's queue, holding
+    what it TRULY holds at that moment (initial allocation, adjusted by all commits [done] and by
+    the victims [pre] of [c] examined before), was not protected: it held more than its deserved
+    quota in some resource or more than its allocatable (fair) share in some resource.  Same
+    hypothesis as theorem 1 (the holding is a real quantity). *)
+Theorem C07_session_protected_queue_untouched :
+  forall m done qs0 c rest,
+    accepted_on_current m qs0 (done ++ c :: rest) ->
+    forall pre k v post, flatten (c_victims c) = pre ++ (k, v) :: post ->
+    exists rq eq, leveled qs0 (rc_queue (c_rc c)) k = Ok (Some (rq, eq)) /\
+      (no_sentinel (take qs0 pre (q_id eq) (holding qs0 done (q_id eq) (alloc_vec eq))) ->
+       ~ protected eq (take qs0 pre (q_id eq) (holding qs0 done (q_id eq) (alloc_vec eq)))).
+Proof. exact session_protected_queue_untouched. Qed.
+Print Assumptions C07_session_protected_queue_untouched.
+
+(** 8. Clauses 2 and 3 (the gate) after every prefix of a session: with what its queue truly
+    holds after the commits [done], every reclaimer stays within the queue's fair share, and a
+    non-preemptible reclaimer keeps the true non-preemptible allocation within deserved quota. *)
+Theorem C07_session_reclaimer_within_fair_share :
+  forall m done qs0 c rest,
+    accepted_on_current m qs0 (done ++ c :: rest) ->
+    exists q, lookup qs0 (rc_queue (c_rc c)) = Some q /\
+      within_all (vadd (holding qs0 done (q_id q) (alloc_vec q)) (quantify (rc_res (c_rc c)))) (fair_vec q) /\
+      (rc_preemptible (c_rc c) = false ->
+       within_all (vadd (holding_np qs0 done (q_id q) (allocnp_vec q)) (quantify (rc_res (c_rc c))))
+                  (deserved_vec q)).
+Proof. exact session_reclaimer_within_fair_share. Qed.
+Print Assumptions C07_session_reclaimer_within_fair_share.
+
+(** Non-vacuity for 6-8: queue a (deserved 4, fair share 3, holding 1 GPU), queue b (deserved 1,
+    fair share 1, holding 3), queue c; two commits in a row, each moving one GPU from b to a
+    reclaimer of a, are accepted on the current state; a third one is not; all holdings are real
+    quantities. *)
+Theorem C07_session_nonvacuous :
+  accepted_on_current 1 (d_qs 3) [d_c; d_c] /\ Acyclic (d_qs 3) /\
+  ~ accepted_on_current 1 (d_qs 3) [d_c; d_c; d_c] /\
+  (forall id q, lookup (d_qs 3) id = Some q ->
+     no_sentinel (holding (d_qs 3) [d_c] id (alloc_vec q)) /\
+     no_sentinel (holding (d_qs 3) [d_c; d_c] id (alloc_vec q))).
+Proof. exact session_nonvacuous. Qed.
+Print Assumptions C07_session_nonvacuous.
+
+(** 9. "On the CURRENT state" cannot be weakened.  Theorem 7 read with a validator input that is
+    not refreshed per job ([accepted_on_stale]: the gate reads the live queue map, the validator
+    the clone made for the first job of the session) is false: with b holding 2 GPUs the first
+    commit brings b down to its deserved quota; judged on the initial clone the second commit is
+    accepted too, although the validator refuses it on the current state, and it takes a GPU
+    from a queue that is within its deserved quota and its fair share in every resource. *)
+Definition C07_session_stale_validator_input : Prop := session_stale_statement.
+Theorem C07_session_stale_validator_input_refuted :
+  exists m qs0 done c rest pre k v post,
+    accepted_on_stale m qs0 qs0 (done ++ c :: rest) /\
+    flatten (c_victims c) = pre ++ (k, v) :: post /\
+    reclaimable m (run qs0 done) (c_rc c) (c_victims c) = Ok false /\
+    forall rq eq, leveled qs0 (rc_queue (c_rc c)) k = Ok (Some (rq, eq)) ->
+      no_sentinel (take qs0 pre (q_id eq) (holding qs0 done (q_id eq) (alloc_vec eq))) /\
+      protected eq (take qs0 pre (q_id eq) (holding qs0 done (q_id eq) (alloc_vec eq))).
+Proof. exact session_stale_refuted. Qed.
+Print Assumptions C07_session_stale_validator_input_refuted.
+
+Theorem C07_session_stale_validator_input_false : ~ C07_session_stale_validator_input.
+Proof. exact session_stale_statement_false. Qed.
+Print Assumptions C07_session_stale_validator_input_false.
